@@ -2,16 +2,8 @@
 use super::*;
 include!("common.inc");
 
-/// blst point validation (FFI): arbitrary outcome, never panics (assumed)
-fn stub_bls_sig_from_bytes(_bytes: &[u8]) -> StmResult<BlsSignature> {
-    if kani::any() { Ok(unsafe { std::mem::zeroed() }) } else { Err(anyhow::anyhow!("bls (stub)")) }
-}
 
-never_panics!(c05_single_signature_legacy_len0, 0, 6, SingleSignature::from_bytes_legacy,
-    kani::stub(crate::signature_scheme::bls_multi_signature::signature::BlsSignature::from_bytes, stub_bls_sig_from_bytes));
-never_panics!(c05_single_signature_legacy_len8, 8, 6, SingleSignature::from_bytes_legacy,
-    kani::stub(crate::signature_scheme::bls_multi_signature::signature::BlsSignature::from_bytes, stub_bls_sig_from_bytes));
-never_panics!(c05_single_signature_legacy_len32, 32, 6, SingleSignature::from_bytes_legacy,
-    kani::stub(crate::signature_scheme::bls_multi_signature::signature::BlsSignature::from_bytes, stub_bls_sig_from_bytes));
-never_panics!(c05_single_signature_legacy_len72, 72, 10, SingleSignature::from_bytes_legacy,
-    kani::stub(crate::signature_scheme::bls_multi_signature::signature::BlsSignature::from_bytes, stub_bls_sig_from_bytes));
+never_panics!(c05_single_signature_legacy_len0, 0, 6, SingleSignature::from_bytes_legacy);
+never_panics!(c05_single_signature_legacy_len8, 8, 6, SingleSignature::from_bytes_legacy);
+never_panics!(c05_single_signature_legacy_len32, 32, 6, SingleSignature::from_bytes_legacy);
+never_panics!(c05_single_signature_legacy_len72, 72, 10, SingleSignature::from_bytes_legacy);
